@@ -41,11 +41,12 @@ JOBS = {
     "sphinx": {"quick": [({"SECS": 2, "VARIETY": "thin"}, 2, None), ({"SECS": 3, "VARIETY": "mini"}, 2, None)],
                "thorough": [({"SECS": 2, "VARIETY": "full"}, 4, None), ({"SECS": 3, "VARIETY": "thin"}, 8, None), ({"SECS": 4, "VARIETY": "mini"}, 8, None)]},
 }
-# google / numpy: no recorded defect is left (both fixed in /repo): the strict equality is checked.  sphinx: the strict equality fails
-# on the model in the defect configuration (a type field written after its field loses to the signature annotation, known finding);
-# the clean configurations exclude exactly that difference
-DEFECT_JOBS: dict = {"sphinx": {"SECS": 1, "VARIETY": "thin"}}
-CLEAN_INVARIANT = {"google": "ParsesBack", "numpy": "ParsesBack", "sphinx": "ParsesBackBeyondKnown"}
+# no recorded defect is left (findings.d/C13.json: all three fixed in /repo): the strict equality ParsesBack is checked everywhere
+DEFECT_JOBS: dict = {}
+CLEAN_INVARIANT = {"google": "ParsesBack", "numpy": "ParsesBack", "sphinx": "ParsesBack"}
+# model-only regression domains: the machine with a repaired defect switched back on - TLC must still find the invariant violated
+# (the domain still discriminates); its counterexample is replayed, so a regression of the real code shows here too
+OLD_BEHAVIOUR_JOBS = {"sphinx": ("DocSphinx_oldlate.cfg", {"SECS": 1, "VARIETY": "thin"}, "ParsesBack")}
 
 
 class Stats:
@@ -150,12 +151,30 @@ def main(tier: str, replay: str | None = None):
             if style in DEFECT_JOBS:
                 c = dict(DEFECT_JOBS[style], EMIT="FALSE", EMITMOD=1, PARSESBACK="ParsesBack")
                 jobs[style, "defect"] = (pool.submit(run_tlc, st.module, f"{st.module}_struct.cfg", workers=2, constants=c, timeout=1200, dump_trace=True), None)
+            if style in OLD_BEHAVIOUR_JOBS:
+                cfg, consts, inv = OLD_BEHAVIOUR_JOBS[style]
+                c = dict(consts, EMIT="FALSE", EMITMOD=1, PARSESBACK=inv)
+                jobs[style, "old-behaviour"] = (pool.submit(run_tlc, st.module, cfg, workers=2, constants=c, timeout=1200, dump_trace=True), None)
     print(f"TLC done after {time.time() - t0:.1f}s", flush=True)
     run.exhaustive = True
     for (style, label), (fut, cap) in jobs.items():
         st, bind = styles[style], binds[style]
         res = fut.result()
         stats = Stats()
+        if label == "old-behaviour":
+            inv = OLD_BEHAVIOUR_JOBS[style][2]
+            tlc.must(res, allow_violations=True)
+            res.violated = sorted(set(res.violated))
+            run.add_tlc(res)
+            run.extra.setdefault("old_behaviour_domain", {})[style] = res.violated
+            if inv not in res.violated or not res.trace:
+                print(res.tail)
+                die(f"{PROP}: {style}: the model with the repaired defect switched back on no longer violates {inv}: the regression domain does not discriminate")
+            fin = res.trace[-1]
+            case = {k: fin[k] for k in ("lines", "expect", "sig", "crash")}
+            case.update(wrap=fin.get("wrap", "plain"), opts=fin.get("opts", {}), outcome="done", sections=fin["expect"], flags={})
+            replay_structs(run, style, st, bind, griffe, [case], stats, "tlc-old-behaviour-counterexample")    # the real code must parse it back
+            continue
         if label == "defect":
             # defect domain: the strict equality fails on the model; TLC's counterexample is replayed on the real parser
             tlc.must(res, allow_violations=True)
